@@ -12,7 +12,8 @@ CFG = {
     "judge": "judge10",
     "rule": "malformed streams only, separate from C09's: the same live server and endpoint family; per parameter "
             "position (path: single variable of every scalar type, each of three variables, typed head and elements "
-            "of a wildcard, Option; query: required / Option / defaulted field of every scalar type, mixed struct; "
+            "of a wildcard, Option; typed wildcards Vec<Color> / Vec<Uuid> / Vec<char> with ONE ill-typed element alone, "
+            "first, in the middle or last among valid ones (sometimes two); query: required / Option / defaulted field of every scalar type, mixed struct; "
             "url-encoded and JSON body members; all three extractors at once with exactly one bad) one malformation "
             "of {wrong type, one past either end of the range, unknown variant, empty, omitted, duplicated, dot "
             "segment, ill-formed UTF-8}; JSON bodies truncated at EVERY prefix length of a valid document, "
